@@ -87,6 +87,8 @@ PATHS = ["d/a.txt", "d/b.txt", "d", "d/sub/c.txt", "e.txt", "D/a.txt", "d0", "d.
          "100%/g.txt", "100-percent/g.txt"]
 TREES = ["d", "d/sub", "D", "d/", "a_b", "axb", "100%"]
 GLOBS = ["d/*.txt", "*.txt", "d/*", "d/sub/*"]
+# named wildcards with a sub-pattern wider than `*`: what the pattern matches depends on the substitution
+GLOBS_SUBS = [("d/${*n}.txt", {"n": "**"}), ("${*top}/a.txt", {"top": "[dD]"}), ("d/${*n}", {"n": "**"})]
 
 
 def gen_decl(r):
@@ -99,6 +101,13 @@ def gen_decl(r):
         return ("step", r.choice(["c1", "c2"]), tuple(r.sample(PATHS, r.choice([0, 0, 1]))),
                 tuple(r.sample(PATHS, r.choice([0, 1, 1, 2]))), tuple(r.sample(PATHS, r.choice([0, 0, 1]))))
     if k < 0.9:
+        if r.random() < 0.35:
+            pat, subs = r.choice(GLOBS_SUBS)
+            ng = NamedGlob(pat, subs)
+            ng.extend(PATHS)
+            # (the client's scan found every match, as for the plain patterns: a scan that found nothing is the
+            # known finding F15, which has its own witness)
+            return ("glob", pat, tuple(sorted(str(p) for p in ng.files())), tuple(sorted(subs.items())))
         pat = r.choice(GLOBS)
         ng = NamedGlob(pat)
         ng.extend(PATHS)
@@ -116,7 +125,7 @@ def apply_decl(wf, creator, decl):
     if kind == "step":
         return wf.define_step(creator, decl[1], inp_paths=list(decl[2]), out_paths=list(decl[3]), vol_paths=list(decl[4]))
     if kind == "glob":
-        ng = NamedGlob(decl[1])
+        ng = NamedGlob(decl[1], dict(decl[3])) if len(decl) > 3 else NamedGlob(decl[1])
         ng.extend(decl[2])
         return wf.register_nglob(creator, ng)
     if kind == "amend":
@@ -191,7 +200,7 @@ def message_class(m1: str, m2: str) -> str:
 async def search(ctx):
     import corr_kernel as _ck
 
-    await _ck.run_scenarios(ctx, lambda ctx, run_: Observer(ctx, run_), ["rerole", "nested_chain"])
+    await _ck.run_scenarios(ctx, lambda ctx, run_: Observer(ctx, run_), ["rerole", "nested_chain", "rerole_same_step"])
     await recycle_scenarios(ctx)
     await spelled_glob_scenarios(ctx)
     r = ctx.rng("pairs")
@@ -206,6 +215,18 @@ async def search(ctx):
                       ("step", "c1", (path,), (), ())):
             for ca, cb in (("S1", "S2"), ("S1", "S1")):
                 directed.append((("tree", tree), other, ca, cb))
+    # a pattern with a substituted named wildcard next to a product it matches only thanks to the substitution
+    for pat, subs in GLOBS_SUBS:
+        ng = NamedGlob(pat, subs)
+        ng.extend(PATHS)
+        plain = NamedGlob(pat)
+        plain.extend(PATHS)
+        only_by_subs = sorted({str(p) for p in ng.files()} - {str(p) for p in plain.files()})
+        gdecl = ("glob", pat, tuple(sorted(str(p) for p in ng.files())), tuple(sorted(subs.items())))
+        for path in only_by_subs[:3]:
+            for other in (("step", "c1", (), (path,), ()), ("step", "c1", (), (), (path,)), ("amend", (), (path,), ())):
+                for ca, cb in (("S1", "S2"), ("S1", "S1")):
+                    directed.append((gdecl, other, ca, cb))
     for i in range(n + len(directed)):
         if i < len(directed):
             a, b, ca, cb = directed[i]
